@@ -34,6 +34,8 @@ def header(patch):
             h["expect"].append(line[len("expect:"):].strip())
         elif line.startswith("expect-silent"):
             h["silent"] = True
+        elif line.startswith("expect-fail-closed"):
+            h["fail_closed"] = True          # the check has to stop with exit 2 (a floor / missing anchor), without a VIOLATION line
         elif line.startswith("property:"):
             h["property"] = line[len("property:"):].strip()
         elif line.startswith("what:"):
@@ -117,9 +119,11 @@ def main(argv):
                     os.remove(os.path.join(SCRATCH, "evidence", props[0] + ".json"))
                 except OSError:
                     pass
+                rcs = []
                 for prop in props:
                     rr = sh([sys.executable, os.path.join(HERE, "runner.py"), prop, "--tier", "quick"], env=env)
                     out += rr.stdout + rr.stderr
+                    rcs.append(rr.returncode)
                 try:
                     ev = json.load(open(os.path.join(SCRATCH, "evidence", props[0] + ".json")))
                     newv = ev["coverage"].get("new_violations", [])
@@ -127,7 +131,14 @@ def main(argv):
                     newv = []
                     why = "no evidence: %s %s" % (e, out[-300:])
                 hit = [k for k in newv if any(x in k for x in h["expect"])] if h["expect"] else newv
-                if h["silent"]:
+                if h.get("fail_closed"):
+                    if newv:
+                        status, why = "fired", newv[0]
+                    elif any(rc == 2 for rc in rcs):
+                        status, why = "fired", "failed closed (exit 2): " + " ".join(l for l in out.split("\n") if "FLOOR-NOT-MET" in l or "ANCHOR-MISSING" in l)[:160]
+                    else:
+                        status, why = "MISSED", out[-300:]
+                elif h["silent"]:
                     if newv:
                         status, why = "MISSED", "FALSE ALARM on a behaviour-preserving change: %s" % newv[:3]
                     else:
